@@ -1,9 +1,11 @@
 import Librfn.Model.Pack
 /-! Executable model of `librfn/wavheader.c` on top of the pack model (hand-written; tied to the C by
 the correspondence runs of C13 and C14).  It mirrors the code as it is in /repo now (with the
-`fix:` commits D3–D6): `init` clears the structure first and derives `chunk_size` from the chunks
-it emits, `decode` rejects a format chunk size above 0x7fffff00 before skipping, `tostring` guards
-its division.
+`fix:` commits D3–D6 and D10 = e9578e3): `init` clears the structure first and derives `chunk_size`
+from the chunks it emits, `set_num_frames` writes `sample_length` only when there is a fact chunk,
+`decode` rejects a format chunk size above 0x7fffff00 before skipping, `tostring` guards its
+division.  The pre-fix behaviours survive only as explicitly named `…Old…` variants used by the
+regression-witness theorems.
 
 32-bit / 16-bit fields are `BitVec 32` / `BitVec 16` (C's unsigned arithmetic wraps exactly like
 `BitVec`'s); `int` arithmetic in `rf_wavheader_init` is modelled as wrapping 32-bit arithmetic,
